@@ -1,4 +1,5 @@
 import UbxModel.Model.Fields
+import UbxModel.Model.ParserUbx
 import UbxModel.Gen.RenderTables
 /-! Model of the `__str__` methods: `Item`, the eleven table-driven renderers of the message files,
     `Fields` and `UbxFrame`.  A renderer returns the text after `"<name>: "`, or the exception the
@@ -97,5 +98,10 @@ def render (k : RKind) (v d : Nat) : Except Exc String :=
 /-- one line of `Fields.__str__`: `"\n  <name>: <text>"` -/
 def line (name : String) (k : RKind) (v d : Nat) : Except Exc String :=
   (render k v d).map fun t => name ++ ": " ++ t
+
+/-- `Fields.__str__` / `UbxFrame.__str__`: the header `NAME cid` and one line per non-reserved field;
+    a field is (name, renderer, current value, value the derived attributes were computed from) -/
+def frameText (name : String) (cid : Cid) (fields : List (String × RKind × Nat × Nat)) : Except Exc (List String) :=
+  (fields.mapM fun f => line f.1 f.2.1 f.2.2.1 f.2.2.2).map fun ls => (name ++ " cls:" ++ hexText 2 cid.cls ++ " id:" ++ hexText 2 cid.id) :: ls
 
 end Ubx.Render
